@@ -10,6 +10,10 @@ oracle  : (i) frames safely within the limit: delivered items == frame-by-frame 
               undecodable frame -> exactly one parse error, later frames intact);
           (ii) a frame rejected for its size: whatever is delivered for it contains a limit error (big) and only bytes of
               that frame; delivery resumes intact with the first frame after its terminator.
+session 3: separators of 1..4 bytes incl. ones made of distinct bytes (`<|>`), a deterministic family with one cut at every offset
+          of a terminator with / without a preceding size rejection (`_terminator_cuts`), debug=True and argument-keeping
+          variants; streams known by construction for every serializer kind and the remainder check (vlib/genericfr.py,
+          modes stream / direct); delivered packets are retained and re-rendered at the end of the run.
 """
 from __future__ import annotations
 
@@ -373,7 +377,7 @@ def after_batch() -> None:
 
 # ---- raw JSON framer ----
 def extra_coverage(stats) -> dict:
-    return {"model_runs_by_framer": dict(sorted(sers.MODEL_RUNS.items()))}
+    return {"model_runs_by_framer": dict(sorted(sers.MODEL_RUNS.items())), "retained_packets": dict(sd.RETAINED)}
 # ---- end raw JSON framer ----
 
 
